@@ -59,10 +59,25 @@ def render(sts, indent=1):
         elif k == "while":
             lines.append(f"{pad}while {cond_src(s[1])}:")
             lines += render(s[2], indent + 1) or [f"{pad}    pass"]
+            if len(s) > 3 and s[3]:
+                lines.append(f"{pad}else:")
+                lines += render(s[3], indent + 1)
         elif k == "for":
             it = {"empty": "[]", "nonempty": "[1, 2]", "unk": "it()"}[s[1]]
             lines.append(f"{pad}for _ in {it}:")
             lines += render(s[2], indent + 1) or [f"{pad}    pass"]
+            if len(s) > 3 and s[3]:
+                lines.append(f"{pad}else:")
+                lines += render(s[3], indent + 1)
+        elif k == "try":
+            lines.append(f"{pad}try:")
+            lines += render(s[1], indent + 1) or [f"{pad}    pass"]
+            if s[2] != "none":
+                lines.append(f"{pad}except {'Exception' if s[2] == 'all' else 'sel()'}:")
+                lines += render(s[3], indent + 1) or [f"{pad}    pass"]
+            if s[4] or s[2] == "none":
+                lines.append(f"{pad}finally:")
+                lines += render(s[4], indent + 1) or [f"{pad}    pass"]
         elif k == "with":
             lines.append(f"{pad}with ctx():")
             lines += render(s[1], indent + 1) or [f"{pad}    pass"]
@@ -111,12 +126,22 @@ def skel(nodes):
         elif isinstance(n, ast.If):
             out.append(["if", cond_of(n.test), skel(n.body), skel(n.orelse)])
         elif isinstance(n, ast.While):
-            if n.orelse:
-                raise Unsupported("while-else")
-            out.append(["while", cond_of(n.test), skel(n.body)])
+            out.append(["while", cond_of(n.test), skel(n.body), skel(n.orelse)])
+        elif isinstance(n, ast.Try):
+            if n.orelse or len(n.handlers) > 1:
+                raise Unsupported("try-else / several handlers")
+            if not n.handlers:
+                out.append(["try", skel(n.body), "none", [], skel(n.finalbody)])
+            else:
+                h = n.handlers[0]
+                if isinstance(h.type, ast.Name) and h.type.id == "Exception":
+                    hk = "all"
+                elif isinstance(h.type, ast.Call) and isinstance(h.type.func, ast.Name) and h.type.func.id == "sel":
+                    hk = "some"
+                else:
+                    raise Unsupported("handler type")
+                out.append(["try", skel(n.body), hk, skel(h.body), skel(n.finalbody)])
         elif isinstance(n, ast.For):
-            if n.orelse:
-                raise Unsupported("for-else")
             it = n.iter
             if isinstance(it, ast.List) and not it.elts:
                 kind = "empty"
@@ -126,7 +151,7 @@ def skel(nodes):
                 kind = "unk"
             else:
                 raise Unsupported("iterable")
-            out.append(["for", kind, skel(n.body)])
+            out.append(["for", kind, skel(n.body), skel(n.orelse)])
         elif isinstance(n, ast.With):
             out.append(["with", skel(n.body)])
         else:
@@ -160,6 +185,11 @@ def gen_list(r, depth, in_loop, ctr, maxlen=4):
     return out
 
 
+def gen_simple(r, ctr):
+    ctr[0] += 1
+    return ["simple", ctr[0]]
+
+
 def gen_stmt(r, depth, in_loop, ctr):
     x = r.random()
     if depth == 0 or x < 0.35:
@@ -181,10 +211,17 @@ def gen_stmt(r, depth, in_loop, ctr):
         body = gen_list(r, depth - 1, in_loop, ctr)
         orelse = gen_list(r, depth - 1, in_loop, ctr) if r.random() < 0.55 else []
         return ["if", gen_cond(r, ids), body, orelse]
-    if x < 0.83:
-        return ["while", r.choice(["tt", "u" + str(r.choice(ids)), "n" + str(r.choice(ids)), "ff"]), gen_list(r, depth - 1, True, ctr)]
-    if x < 0.95:
-        return ["for", r.choice(["unk", "unk", "nonempty", "empty"]), gen_list(r, depth - 1, True, ctr)]
+    if x < 0.82:
+        orelse = gen_list(r, depth - 1, in_loop, ctr, 2) if r.random() < 0.25 else []
+        return ["while", r.choice(["tt", "u" + str(r.choice(ids)), "n" + str(r.choice(ids)), "ff"]), gen_list(r, depth - 1, True, ctr), orelse]
+    if x < 0.92:
+        orelse = gen_list(r, depth - 1, in_loop, ctr, 2) if r.random() < 0.25 else []
+        return ["for", r.choice(["unk", "unk", "nonempty", "empty"]), gen_list(r, depth - 1, True, ctr), orelse]
+    if x < 0.96:
+        hk = r.choice(["none", "all", "some"])
+        hb = gen_list(r, depth - 1, in_loop, ctr, 2) if hk != "none" else []
+        f = [gen_simple(r, ctr)] if (hk == "none" or r.random() < 0.4) else []   # no jumps in finally: they would swallow the step budget
+        return ["try", gen_list(r, depth - 1, in_loop, ctr, 2), hk, hb, f]
     return ["with", gen_list(r, depth - 1, in_loop, ctr)]
 
 
@@ -207,6 +244,13 @@ def targeted():
         out.append([["for", "nonempty", [["if", c, [["ret"]], [["raise"]]]]], S(2)])         # first iteration leaves
         out.append([["if", "tt", [S(1)], [S(2)]], ["if", "ff", [S(3)], [S(4)]], ["while", "ff", [S(5)]], ["if", "ff", [S(6)], []]])
         out.append([["with", [["if", c, [["ret"]], [["raise"]]]]], S(2)])
+        out.append([["while", c, [S(1), ["if", "u2", [["brk"]], []]], [S(8), ["ret"]]], S(2)])                    # loop else
+        out.append([["for", "unk", [["if", c, [S(1), ["cont"]], [["brk"]]]], [["ret"]]], S(2)])
+        out.append([["while", "tt", [["for", "unk", [S(1)], [["brk"]]]], []], S(2)])
+        out.append([["try", [["if", c, [["ret"]], [["raise"]]]], "all", [S(1)], [S(2)]], S(3)])               # try
+        out.append([["try", [["if", c, [S(1), ["ret"]], [["ret"]]]], "none", [], [S(2)]], S(3)])
+        out.append([["if", c, [["try", [S(1), ["raise"]], "some", [["ret"]], []], ["ret"]], [S(2)]], S(3)])
+        out.append([["while", "tt", [["try", [["if", c, [["brk"]], []]], "all", [S(1)], []], S(2)], []], S(3)])
         out.append([["if", c, [S(1), ["ret"]], []], ["with", [["if", "u2", [["ret"]], []], S(2), ["ret"]]]])
     return out
 
@@ -230,6 +274,10 @@ def run(bits):
             tick(); i = st["pos"]; st["pos"] += 1
             if not (bits[i] if i < len(bits) else False): return
             yield 1
+    class _Never(Exception): pass
+    def sel():
+        i = st["pos"]; st["pos"] += 1
+        return (ValueError, AssertionError) if (bits[i] if i < len(bits) else False) else _Never
     class ctx:
         def __enter__(self): return self
         def __exit__(self, *a): return False
